@@ -223,6 +223,39 @@ fn check_sequence<T: Sc>(ctx: &Ctx, cfg: &Cfg, seq: &[Call], tally: &mut (u64, u
                     Err(e) => ctx.with(|s| s.violate("C18", "call-order-matters", case(), format!("canonical order is rejected with {}", e))),
                 }
             }
+            // whatever the threshold does to the coefficients, the exposed residuals belong to the exposed coefficients:
+            // residuals = W (Y - Phi(initial parameters) C), column after column
+            {
+                let (lr, lc) = last_obs.unwrap();
+                let ncols = if cfg.mrhs { lc } else { 1 };
+                let y: DMatrix<f64> = ymat::<T>(cfg, lr, ncols).map(|v| v.d());
+                let wv: Vec<f64> = match last_w {
+                    Some((l, k)) => wvec::<T>(l, k).iter().map(|v| v.d()).collect(),
+                    None => vec![1.0; lr],
+                };
+                let phi: DMatrix<f64> = init.eval().expect("harness model evaluates").map(|v| v.d());
+                let c = o.coef_f64().unwrap();
+                let res: Vec<f64> = o.res.as_ref().unwrap().iter().map(|b| T::from_bits64(*b).d()).collect();
+                if c.nrows() == phi.ncols() && c.ncols() == ncols && res.len() == lr * ncols {
+                    let fit = &phi * &c;
+                    let mut worst = 0.0f64;
+                    let mut scale = 0.0f64;
+                    for s_ in 0..ncols {
+                        for i in 0..lr {
+                            let want = wv[i] * (y[(i, s_)] - fit[(i, s_)]);
+                            worst = worst.max((res[s_ * lr + i] - want).abs());
+                            scale = scale.max((wv[i] * y[(i, s_)]).abs()).max((wv[i] * fit[(i, s_)]).abs());
+                        }
+                    }
+                    let tol = 64.0 * (phi.ncols() as f64 + 2.0) * T::EPS * scale;
+                    if !(worst <= tol) {
+                        ctx.with(|s| s.violate("C18", "initial-residuals-not-W(Y-Phi C)", case(), format!("max deviation {:e} (tolerance {:e}) between the exposed residuals and W(Y - Phi C) for the exposed coefficients", worst, tol)));
+                    }
+                    ctx.with(|s| s.inc("initial_residuals_checked"));
+                } else {
+                    ctx.with(|s| s.violate("C18", "initial-state-shape", case(), format!("coefficients {}x{}, residuals {} for {} samples, {} right-hand sides, {} basis functions", c.nrows(), c.ncols(), res.len(), lr, ncols, phi.ncols())));
+                }
+            }
             // the exposed coefficients and residuals are the least-squares solution for the model's parameters (dense basis)
             if cfg.out_len == 5 {
                 let (lr, lc) = last_obs.unwrap();
